@@ -42,6 +42,9 @@ type C20Step struct {
 	Equal    string   `json:"equal,omitempty"`
 	Cond     bool     `json:"cond,omitempty"`
 	LogicErr bool     `json:"logic_err,omitempty"`
+	// PanicCB: the failure callback of this step panics after it has been entered (a handler's callback that writes to a
+	// connection the client has closed aborts like that). It must still have run exactly once.
+	PanicCB bool `json:"panic_in_callback,omitempty"`
 }
 
 type C20Case struct {
@@ -94,6 +97,22 @@ func (tr *c20Trace) String() string {
 }
 
 var errC20 = errors.New("logic failed")
+var errC20Callback = errors.New("failure callback aborted")
+
+// c20Eval runs CheckFailed; a panic raised by a failure callback of the chain itself is reported as failed = true (the chain did
+// fail), any other panic is handed on.
+func c20Eval(c *checker.Checker) (failed bool) {
+	defer func() {
+		if r := recover(); r != nil {
+			if r == any(errC20Callback) {
+				failed = true
+				return
+			}
+			panic(r)
+		}
+	}()
+	return c.CheckFailed()
+}
 
 func c20Build(steps []C20Step, tr *c20Trace) *checker.Checker {
 	c := &checker.Checker{}
@@ -101,7 +120,12 @@ func c20Build(steps []C20Step, tr *c20Trace) *checker.Checker {
 		i := i
 		s := steps[i]
 		val := func() string { tr.add(i, 'v'); return s.Value }
-		errF := func() { tr.add(i, 'e') }
+		errF := func() {
+			tr.add(i, 'e')
+			if s.PanicCB {
+				panic(errC20Callback)
+			}
+		}
 		cond := func() bool { tr.add(i, 'c'); return s.Cond }
 		logic := func() error {
 			tr.add(i, 'l')
@@ -152,7 +176,7 @@ func c20Check(steps []C20Step) *ev.Violation {
 	var firstTrace string
 	for round := 0; round < 2; round++ {
 		tr.ev = tr.ev[:0]
-		got := c.CheckFailed()
+		got := c20Eval(c)
 		if got != (first >= 0) {
 			return ev.V("C20/verdict", "round %d: CheckFailed=%v, reference says first failing step=%d; trace %s", round, got, first, tr)
 		}
@@ -231,6 +255,8 @@ var c20Variants = []C20Step{
 	{Kind: kLength, Value: "abcd", Min: 0, Max: 3},
 	{Kind: kEquals, Value: "a", Equal: "a"},
 	{Kind: kEquals, Value: "a", Equal: "b"},
+	{Kind: kEquals, Value: "a/", Equal: "a"},
+	{Kind: kNotEmpty, Value: "", PanicCB: true},
 	{Kind: kCondNotEmpty, Cond: true, Value: "x"},
 	{Kind: kCondNotEmpty, Cond: true, Value: ""},
 	{Kind: kCondNotEmpty, Cond: false, Value: ""},
@@ -331,15 +357,16 @@ func TestC20Enum(t *testing.T) {
 		col.SetExhaustive(true)
 		col.SetExtra("enumerated_max_chain_length", maxLen)
 		col.SetExtra("step_variants", nv)
-		col.Sample(map[string]any{"enumerated": "all chains over the 17 step variants", "variants": c20Variants, "max_length": maxLen})
+		col.Sample(map[string]any{"enumerated": "all chains over the step variants", "variants": c20Variants, "max_length": maxLen})
 	})
 }
 
-const c20Rule = "chains over the checker API: (a) every sequence of the 17 step variants (8 kinds x outcomes pass/fail/condition-false) up to the stated length, enumerated exhaustively, each evaluated twice; (b) rapid-generated chains up to length 40 with random strings, bounds (0 = no bound, min>max allowed) and value lists. Non-trivial: length >= 2 with a failing step that is not the last. Enumerated chains are distinct by construction; generated chains are distinct by (kind, reference outcome) vector."
+const c20Rule = "chains over the checker API: (a) every sequence of the 19 step variants (8 kinds x outcomes pass/fail/condition-false, plus an inequality by one trailing slash and a failing step whose callback panics) up to the stated length, enumerated exhaustively, each evaluated twice; (b) rapid-generated chains up to length 40 with random strings (incl. pairs that differ only by a trailing slash or blank, by letter case, by a prefix), bounds (0 = no bound, min>max allowed), value lists and failure callbacks that panic. Non-trivial: length >= 2 with a failing step that is not the last. Enumerated chains are distinct by construction; generated chains are distinct by (kind, reference outcome) vector."
 
 func genC20Step(t *rapid.T) C20Step {
 	s := C20Step{Kind: rapid.IntRange(0, 7).Draw(t, "kind")}
-	str := rapid.OneOf(rapid.Just(""), rapid.StringMatching(`[a-z ]{0,12}`))
+	str := rapid.OneOf(rapid.Just(""), rapid.StringMatching(`[a-z ]{0,12}`), rapid.StringMatching(`[a-zA-Z/:. ]{1,12}`), rapid.SampledFrom([]string{"/", "https://idp.example/saml/SSO", "https://idp.example/saml/SSO/", " ", "a//", "\x00", "é"}))
+	s.PanicCB = rapid.IntRange(0, 5).Draw(t, "panic-in-callback") == 0
 	switch s.Kind {
 	case kNotEmpty:
 		s.Value = str.Draw(t, "value")
@@ -351,10 +378,34 @@ func genC20Step(t *rapid.T) C20Step {
 		s.Max = rapid.IntRange(0, 14).Draw(t, "max")
 	case kEquals:
 		s.Value = str.Draw(t, "value")
-		if rapid.Bool().Draw(t, "same") {
+		switch rapid.IntRange(0, 3).Draw(t, "same") {
+		case 0, 1:
 			s.Equal = s.Value
-		} else {
+		case 2:
 			s.Equal = str.Draw(t, "equal")
+		default:
+			// nearly equal: one side with a trailing slash / blank / NUL, other letter case, a prefix of the other
+			near := rapid.SampledFrom([]string{"slash", "slash-left", "blank", "nul", "upper", "prefix", "lead-blank"}).Draw(t, "near")
+			switch near {
+			case "slash":
+				s.Equal = s.Value + "/"
+			case "slash-left":
+				s.Equal, s.Value = s.Value, s.Value+"/"
+			case "blank":
+				s.Equal = s.Value + " "
+			case "nul":
+				s.Equal = s.Value + "\x00"
+			case "upper":
+				s.Equal = strings.ToUpper(s.Value)
+			case "prefix":
+				if len(s.Value) > 0 {
+					s.Equal = s.Value[:len(s.Value)-1]
+				} else {
+					s.Equal = "x"
+				}
+			case "lead-blank":
+				s.Equal = " " + s.Value
+			}
 		}
 	case kCondNotEmpty:
 		s.Cond = rapid.Bool().Draw(t, "cond")
